@@ -1,5 +1,7 @@
 SPECIFICATION Spec
-CONSTANT PREDSET = {@PREDS@}
+CONSTANTS PREDSET = {@PREDS@}
+          NA = @NA@
+          NL = @NL@
 INVARIANT Emit
 INVARIANT SubsetLaw
 INVARIANT ConcatLength
